@@ -269,8 +269,51 @@ func runMidV(c *Case) error {
 			return fmt.Errorf("harness: write: %v", err)
 		}
 	}
-	if err := readUntil("waiting for Rversion", func() bool { return gotVer >= nver }); err != nil {
-		return err
+	// Waiting for the Rversion(s). A missing Rversion is decided without a clock:
+	// a request passes respond.unlinked only behind the point at which its reply
+	// is handed to the connection's single sender (or dropped), so once every
+	// Tversion has been seen there, a fence request is sent on a tag of its own;
+	// its reply is handed to the sender later, hence written later: an Rversion
+	// that has not been read when the fence's reply arrives will never come.
+	// (The 2 ms poll only paces the look at the schedule point.)
+	{
+		const phase = "waiting for Rversion"
+		verTarget := seenBase["Tversion"] + nver
+		fenceSent, fenced := false, false
+		t0 := time.Now()
+		for gotVer < nver || (fenceSent && !fenced) {
+			f, err := h.NextFrame(2 * time.Millisecond)
+			if err == xport.ErrTimeout {
+				if !fenceSent && ctl.Seen("Tversion", "respond.unlinked") >= verTarget {
+					if err := sendm(&ref9p.Msg{Type: ref9p.Tclunk, Tag: 0x3004, Fid: 0x7005}); err != nil {
+						return fmt.Errorf("harness: write: %v", err)
+					}
+					fenceSent = true
+				}
+				if time.Since(t0) > deadline {
+					return hang(phase + ": no further reply")
+				}
+				continue
+			}
+			if err != nil {
+				return fmt.Errorf("%s: the connection ended: %v", phase, err)
+			}
+			if fenceSent && !fenced {
+				if r, _, derr := ref9p.Decode(f, dotu); derr == nil && r.Tag == 0x3004 {
+					fenced = true
+					if gotVer < nver {
+						return fmt.Errorf("the mid-session Tversion (tag %d, sent %d times) received %d replies carrying its tag: every Tversion has left Respond (schedule point respond.unlinked, which lies behind the hand-over of the reply to the sender), and a request sent after that has been answered", p.VTag, nver, gotVer)
+					}
+					continue
+				}
+			}
+			if err := take(f, phase); err != nil {
+				return err
+			}
+		}
+		if fenceSent && !unlinked("Tclunk/28677", 1) {
+			return hang("the fence request behind the Tversion was answered but is not retired")
+		}
 	}
 	// ---- wave 2: one request per tag of wave 1, and some on tags of their own,
 	// on fids bound after the restart
